@@ -139,7 +139,7 @@ func (r *raceMon) inHarness(e *Exec, th *Thread) bool {
 	for p := fn; name == "" && p != nil; p = p.Parent() {
 		name = e.P.fset.Position(p.Pos()).Filename
 	}
-	h := strings.Contains(name, "zz_verif") || strings.Contains(name, "/internal/vstub/") || strings.Contains(name, "/internal/vnd/") || !strings.HasPrefix(name, "/repo/")
+	h := strings.Contains(name, "zz_verif") || strings.Contains(name, "/internal/vstub/") || strings.Contains(name, "/internal/vnd/") || !strings.HasPrefix(name, repoDir+"/")
 	r.harnessFn[fn] = h
 	return h
 }
